@@ -395,6 +395,73 @@ fn groups(verif_seed: u64, family: &str) -> Vec<Group> {
     gs
 }
 
+/// The group of run `idx`: the corpus is the same in every round; the synthetic
+/// worlds are regenerated for every round (`idx / groups-per-round`).
+struct Groups {
+    seed: u64,
+    base: String,
+    per_round: usize,
+    cache: BTreeMap<u64, Vec<Group>>,
+}
+impl Groups {
+    fn new(seed: u64, base: &str) -> Groups {
+        let g0 = groups(seed, base);
+        let n = g0.len();
+        let mut cache = BTreeMap::new();
+        cache.insert(0, g0);
+        Groups { seed, base: base.to_string(), per_round: n, cache }
+    }
+    fn at(&mut self, idx: u64) -> (Group, u64) {
+        let round = idx / self.per_round as u64;
+        let key = if self.base.starts_with("corpus") { 0 } else { round };
+        let (seed, base) = (self.seed, self.base.clone());
+        let gs = self.cache.entry(key).or_insert_with(|| groups(if key == 0 { seed } else { mix(seed, 0x7711_0000 + key) }, &base));
+        (gs[(idx as usize) % gs.len()].clone(), round)
+    }
+}
+
+fn content_hash(b: &[u8]) -> u64 {
+    let mut h: u64 = 0xcbf29ce484222325;
+    for c in b {
+        h ^= *c as u64;
+        h = h.wrapping_mul(0x100000001b3);
+    }
+    h
+}
+
+/// Cross-process generation: a fresh process (own address layout, own
+/// process-wide state, own lazily seeded statics) whose `getrandom` seam is
+/// seeded with `hs` before anything else runs. The outcome comes back as one
+/// (name, length, content hash) triple per file, or the error text.
+fn generate_in_child(fam_base: &str, seed: u64, idx: u64, hs: u64) -> Outcome {
+    let exe = std::env::current_exe().map_err(|e| format!("current_exe: {e}"))?;
+    let out = std::process::Command::new(exe)
+        .args(["outhash", fam_base, &seed.to_string(), &idx.to_string(), &hs.to_string()])
+        .output()
+        .map_err(|e| format!("spawn: {e}"))?;
+    let text = String::from_utf8_lossy(&out.stdout);
+    let mut files = BTreeMap::new();
+    let mut done = false;
+    for l in text.lines() {
+        if let Some(e) = l.strip_prefix("ERR ") {
+            return Err(e.to_string());
+        }
+        if let Some(f) = l.strip_prefix("FILE ") {
+            let mut it = f.splitn(3, ' ');
+            let (len, h, name) = (it.next().unwrap_or(""), it.next().unwrap_or(""), it.next().unwrap_or(""));
+            files.insert(name.to_string(), format!("{len} bytes, content hash {h}").into_bytes());
+        }
+        if l == "DONE" {
+            done = true;
+        }
+    }
+    if !done {
+        println!("HARNESS-ERROR \"cross-process generation child gave no verdict (status {:?}): {}\"", out.status.code(), String::from_utf8_lossy(&out.stderr).chars().take(300).collect::<String>().replace('"', "'").replace('\n', " "));
+        std::process::exit(2);
+    }
+    Ok(files)
+}
+
 struct RunOut {
     hash: u64,
     gens: u64,
@@ -403,8 +470,12 @@ struct RunOut {
     differing: Option<(u64, String)>,
 }
 
-fn run_group(g: &Group, verif_seed: u64, k: u64) -> RunOut {
-    let base = generate(g, 0);
+fn run_group(g: &Group, verif_seed: u64, k: u64, xproc: Option<(&str, u64, u64)>) -> RunOut {
+    let gen_one = |hs: u64| match xproc {
+        Some((fb, seed, idx)) => generate_in_child(fb, seed, idx, hs),
+        None => generate(g, hs),
+    };
+    let base = gen_one(0);
     let mut h: u64 = 0xcbf29ce484222325;
     let mut feed = |v: u64| {
         h ^= v;
@@ -418,10 +489,14 @@ fn run_group(g: &Group, verif_seed: u64, k: u64) -> RunOut {
         Ok(f) => format!("{} files, {} bytes", f.len(), f.values().map(|v| v.len()).sum::<usize>()),
         Err(e) => format!("error: {}", e.chars().take(80).collect::<String>()),
     };
+    // the shape of the output is part of the run's identity (the synthetic worlds of
+    // different rounds share their names)
+    h ^= content_hash(desc.as_bytes());
+    h = h.wrapping_mul(0x100000001b3);
     let mut differing = None;
     for i in 1..=k {
         let hs = mix(verif_seed, i);
-        let o = generate(g, hs);
+        let o = gen_one(hs);
         if let Some(d) = diff(&base, &o) {
             differing = Some((hs, d));
             break;
@@ -464,7 +539,7 @@ fn main() {
     match cmd {
         "groups" => {
             let fam = args.get(2).cloned().unwrap_or("corpus".into());
-            for (i, g) in groups(1, &fam_base(&fam)).iter().enumerate() {
+            for (i, g) in groups(1, fam_base(&fam).trim_start_matches("xproc-")).iter().enumerate() {
                 println!("{i} {} {} {:?}", g.world_name, g.backend, g.flags);
             }
         }
@@ -478,7 +553,12 @@ fn main() {
             let (start, count) = if cmd == "run" { (args[4].parse::<u64>().unwrap(), args[5].parse::<u64>().unwrap()) } else { (args[4].parse::<u64>().unwrap(), 1) };
             let hashfile = if cmd == "run" { args.get(6).cloned() } else { None };
             let k = seeds_per_group(&fam);
-            let gs = groups(seed, &fam_base(&fam));
+            let fb_full = fam_base(&fam);
+            let (xproc, fb) = match fb_full.strip_prefix("xproc-") {
+                Some(r) => (true, r.to_string()),
+                None => (false, fb_full.clone()),
+            };
+            let mut gs = Groups::new(seed, &fb);
             let t0 = std::time::Instant::now();
             let (mut hashes, mut nontrivial) = (vec![], vec![]);
             let mut gens = 0u64;
@@ -486,11 +566,12 @@ fn main() {
             let mut by_backend: BTreeMap<&str, u64> = BTreeMap::new();
             let mut errors = 0u64;
             for idx in start..start + count {
-                let g = &gs[(idx as usize) % gs.len()];
+                let (g, round) = gs.at(idx);
+                let g = &g;
                 let before = unsafe { GETRANDOM_CALLS };
-                let r = run_group(g, mix(seed, idx / gs.len() as u64), k);
+                let r = run_group(g, mix(seed, round), k, if xproc { Some((&fb, seed, idx)) } else { None });
                 let calls = unsafe { GETRANDOM_CALLS } - before;
-                if calls == 0 {
+                if calls == 0 && !xproc {
                     println!("HARNESS-ERROR \"the getrandom seam was never called: hash keys are not under the simulator's control\"");
                     std::process::exit(2);
                 }
@@ -506,9 +587,10 @@ fn main() {
                     eprintln!("{idx} {} {} {:?}: {}", g.world_name, g.backend, g.flags, r.desc);
                 }
                 if let Some((hs, d)) = r.differing {
-                    let msg = format!("world {} / backend {} / options {:?}: output under hash seed {hs} differs from hash seed 0: {d}", g.world_name, g.backend, g.flags);
+                    let msg = format!("world {} / backend {} / options {:?}: output {}under hash seed {hs} differs from hash seed 0: {d}", g.world_name, g.backend, g.flags, if xproc { "of a separate process " } else { "" });
                     println!(
-                        "VIOLATION-JSON {{\"family\":\"{fam}\",\"run_index\":{idx},\"verif_seed\":{seed},\"class\":\"NONDET\",\"site\":\"{}\",\"message\":{},\"steps\":{},\"trace_hash\":\"{:016x}\",\"choices\":[],\"trace\":[{}]}}",
+                        "VIOLATION-JSON {{\"family\":\"{fam}\",\"run_index\":{idx},\"verif_seed\":{seed},\"class\":\"{}\",\"site\":\"{}\",\"message\":{},\"steps\":{},\"trace_hash\":\"{:016x}\",\"choices\":[],\"trace\":[{}]}}",
+                        if xproc { "NONDET-XPROC" } else { "NONDET" },
                         g.backend,
                         jstr(&msg),
                         r.gens,
@@ -519,7 +601,7 @@ fn main() {
                     std::process::exit(3);
                 }
                 if samples.len() < 2 {
-                    samples.push(format!("{{\"run_index\":{idx},\"trace\":[{}]}}", jstr(&format!("world {} / backend {} / options {:?}: {} ; identical under {} hash seeds", g.world_name, g.backend, g.flags, r.desc, r.gens))));
+                    samples.push(format!("{{\"run_index\":{idx},\"trace\":[{}]}}", jstr(&format!("world {} / backend {} / options {:?}: {} ; identical under {} hash seeds{}", g.world_name, g.backend, g.flags, r.desc, r.gens, if xproc { ", each in its own process" } else { "" }))));
                 }
             }
             if cmd != "run" {
@@ -542,14 +624,40 @@ fn main() {
             let dn: BTreeSet<u64> = nontrivial.iter().copied().collect();
             let f1: Vec<String> = by_backend.iter().map(|(k, v)| format!("\"generations_{k}\":{v}")).collect();
             println!(
-                "SUMMARY {{\"family\":\"{fam}\",\"feature_set\":\"native\",\"start\":{start},\"runs\":{count},\"steps\":{gens},\"callbacks\":0,\"distinct_traces\":{},\"distinct_nontrivial\":{},\"states\":0,\"leak_check_skipped\":0,\"wall_s\":{:.3},\"faults\":{{\"hash_seed_changed\":{},\"generation_errors_compared\":{errors},{}}},\"runs_with_fault\":{{}},\"samples\":[{}]}}",
+                "SUMMARY {{\"family\":\"{fam}\",\"feature_set\":\"native\",\"start\":{start},\"runs\":{count},\"steps\":{gens},\"callbacks\":0,\"distinct_traces\":{},\"distinct_nontrivial\":{},\"states\":0,\"leak_check_skipped\":0,\"wall_s\":{:.3},\"faults\":{{\"hash_seed_changed\":{},\"separate_process_generation\":{},\"generation_errors_compared\":{errors},{}}},\"runs_with_fault\":{{}},\"samples\":[{}]}}",
                 dh.len(),
                 dn.len(),
                 t0.elapsed().as_secs_f64(),
                 gens - count,
+                if xproc { gens } else { 0 },
                 f1.join(","),
                 samples.join(",")
             );
+        }
+        "outhash" => {
+            // detgen outhash <family-base> <verif_seed> <idx> <hash_seed>: one generation in this process
+            let (fb, seed, idx, hs): (String, u64, u64, u64) = (args[2].clone(), args[3].parse().unwrap(), args[4].parse().unwrap(), args[5].parse().unwrap());
+            unsafe {
+                HASH_SEED = hs;
+                HASH_CTR = 0;
+            }
+            let (g, _) = Groups::new(seed, &fb).at(idx);
+            let o = generate(&g, hs);
+            if unsafe { GETRANDOM_CALLS } == 0 {
+                eprintln!("the getrandom seam was never called");
+                std::process::exit(2);
+            }
+            let mut out = String::new();
+            match o {
+                Ok(files) => {
+                    for (n, b) in &files {
+                        out.push_str(&format!("FILE {} {:016x} {}\n", b.len(), content_hash(b), n));
+                    }
+                }
+                Err(e) => out.push_str(&format!("ERR {}\n", e.replace('\n', " "))),
+            }
+            out.push_str("DONE\n");
+            print!("{out}");
         }
         "merge" => {
             let mut files: Vec<String> = vec![];
